@@ -264,6 +264,56 @@ element built from it carries the converted value (`mK`: scale = 1/1000) -/
 theorem thermal_temperature (v s f : K) (x y : List K) :
     (mkThermal v s f x y).temp = v * s ∧ (mkThermal v s f x y).beamFill = f := ⟨rfl, rfl⟩
 
+/-! ### quantity-valued inputs: every spelling of the same physical value gives the same element -/
+
+/-- what a spelling means: a bare number is in the target unit, a Quantity in a unit that is `s` × the target
+unit is `v·s` (mK: 1/1000; percent: 1/100; arcsec²/arcmin²: 1/3600), an inconvertible unit is refused -/
+theorem quantity_value (v s : K) :
+    (QIn.number v).value = .ok v ∧ (QIn.quantity v s).value = .ok (v * s) ∧
+    (QIn.incompatible v).value = .error .unitError := ⟨rfl, rfl, rfl⟩
+
+/-- the constructor stores the physical values (temperature in Kelvin, beam filling factor as an unscaled
+number), whatever the spelling; an inconvertible unit in either argument raises -/
+theorem thermal_spelling (tq fq : QIn K) (x y : List K) :
+    (∀ th, mkThermalQ tq fq x y = .ok th →
+      tq.value = .ok th.temp ∧ fq.value = .ok th.beamFill ∧ th.emis = (mkTable x y false).1) ∧
+    (∀ e, tq.value = .error e → mkThermalQ tq fq x y = .error e) ∧
+    (∀ t e, tq.value = .ok t → fq.value = .error e → mkThermalQ tq fq x y = .error e) := by
+  unfold mkThermalQ
+  refine ⟨?_, ?_, ?_⟩
+  · intro th h
+    cases ht : tq.value with
+    | error e => rw [ht] at h; cases h
+    | ok t =>
+      cases hf : fq.value with
+      | error e => rw [ht, hf] at h; cases h
+      | ok f =>
+        rw [ht, hf] at h
+        have h' : mkThermal t 1 f x y = th := by injection h
+        subst h'
+        exact ⟨by simp [mkThermal, tempKelvin], rfl, rfl⟩
+  · intro e h; rw [h]; rfl
+  · intro t e ht hf; rw [ht, hf]; rfl
+
+/-- two spellings of the same physical values build the same element -/
+theorem spelling_independent (tq tq' fq fq' : QIn K) (x y : List K)
+    (ht : tq.value = tq'.value) (hf : fq.value = fq'.value) :
+    mkThermalQ tq fq x y = mkThermalQ tq' fq' x y := by
+  unfold mkThermalQ; rw [ht, hf]
+
+/-- the setters: an assignment stores the physical value of what was assigned; a refused assignment (the setter
+raised) leaves the element as it was -/
+theorem assign_spelling (th : Thermal K) (q : QIn K) :
+    (∀ t, q.value = .ok t → (th.step (ThStep.ofTemp q)).temp = t ∧
+      (th.step (ThStep.ofTemp q)).beamFill = th.beamFill) ∧
+    (∀ f, q.value = .ok f → (th.step (ThStep.ofFill q)).beamFill = f ∧
+      (th.step (ThStep.ofFill q)).temp = th.temp) ∧
+    (∀ e, q.value = .error e → th.step (ThStep.ofTemp q) = th ∧ th.step (ThStep.ofFill q) = th) := by
+  refine ⟨?_, ?_, ?_⟩
+  · intro t h; simp [ThStep.ofTemp, h, Thermal.step, tempKelvin]
+  · intro f h; simp [ThStep.ofFill, h, Thermal.step]
+  · intro e h; simp [ThStep.ofTemp, ThStep.ofFill, h, Thermal.step]
+
 /-! ### the element as it is when asked: histories of assignments and queries on one element -/
 
 /-- whatever was assigned to or asked of the element before, a `thermal_source()` query reports the element's
